@@ -482,7 +482,7 @@ func main() {
 	var hs []hist
 	nRandom, maxFaults, permCfgs := 800, 1, 2
 	if c.Thorough() {
-		nRandom, maxFaults, permCfgs = 6000, 2, 4
+		nRandom, maxFaults, permCfgs = 4500, 2, 4
 	}
 	// 1. scripts, fault-free, for every configuration
 	for _, k := range append(cfgs(), cfgT{}) {
@@ -538,7 +538,7 @@ func main() {
 	staleAll := staleMerges()
 	nStale := 450
 	if c.Thorough() {
-		nStale = 4000
+		nStale = 2500
 	}
 	rs := c.Rand.Fork()
 	for i := 0; i < nStale && i < len(staleAll); i++ {
